@@ -213,7 +213,8 @@ class Evaluator:
             elif k == "dc":
                 out.append(("dc", e[2] if len(e) > 2 and e[2] is not None else e[1]))
             elif k == "i":
-                out.append(("i", e[1]))
+                iv = self.read_canon(st, e[1], ()) if (e[1], ()) in st.mem else ("local", e[1])
+                out.append(("i", e[1], iv))
             elif k == "c":
                 out.append(("ci", e[1], e[3]))
             elif k == "s":
@@ -571,7 +572,7 @@ def project(ev, base, cproj):
             else:
                 e = ("dc", e, p[1])
         elif p[0] == "i":
-            e = ("idx", e, ("local", p[1]))
+            e = ("idx", e, p[2] if len(p) > 2 else ("local", p[1]))
         elif p[0] == "ci":
             e = ("idx", e, ("const", p[1], p[2]))
         elif p[0] == "sub":
@@ -696,7 +697,12 @@ def show(e, depth=0):
     if k == "await":
         return "%s.await" % show(e[1], d)
     if k == "idx":
-        return "%s[%s]" % (show(e[1], d), e[2][1] if isinstance(e[2], tuple) else e[2])
+        ix = e[2]
+        if isinstance(ix, tuple) and ix and ix[0] in ("local", "const"):
+            return "%s[%s]" % (show(e[1], d), ix[1])
+        if isinstance(ix, tuple) and ix and ix[0] == "c" and ix[2] == "int":
+            return "%s[%s]" % (show(e[1], d), ix[3])
+        return "%s[%s]" % (show(e[1], d), show(ix, d) if isinstance(ix, tuple) else ix)
     if k == "sub":
         return "%s[%s..%s%s]" % (show(e[1], d), e[2], "-" if e[4] else "", e[3])
     if k == "resume":
@@ -774,6 +780,35 @@ def children(e):
     if k == "after":
         return (e[3],)
     return ()
+
+
+def subst(e, target, repl):
+    """Replace every occurrence of sub-expression `target` (structural equality) by `repl`."""
+    if e == target:
+        return repl
+    if not (isinstance(e, tuple) and e and isinstance(e[0], str)):
+        return e
+    k = e[0]
+    f = lambda x: subst(x, target, repl)
+    if k == "call":
+        return (k, e[1], tuple(f(a) for a in e[2])) + tuple(e[3:])
+    if k in ("f", "vf", "dc", "discr", "len", "try", "unwrap", "residual", "poll", "await", "sub", "idx", "repeat"):
+        return (k, f(e[1])) + tuple(e[2:])
+    if k in ("bin", "chk", "ovf"):
+        return (k, e[1], f(e[2]), f(e[3])) + tuple(e[4:])
+    if k == "un":
+        return (k, e[1], f(e[2]))
+    if k == "cast":
+        return (k, e[1], e[2], f(e[3])) + tuple(e[4:])
+    if k == "agg":
+        return (k, e[1], e[2], tuple((n, f(v)) for n, v in e[3]))
+    if k in ("tup", "arr", "agg?"):
+        return (k, tuple(f(a) for a in e[1]))
+    if k == "clo":
+        return (k, e[1], tuple(f(a) for a in e[2]))
+    if k == "after":
+        return (k, e[1], e[2], f(e[3]))
+    return e
 
 
 def walk(e):
